@@ -54,7 +54,7 @@ var forbidden = map[string]bool{
 }
 
 type stats struct {
-	Files, Changed                                             int
+	Files, Changed                                                int
 	Send, Recv, Select, Go, Close, RangeChan, RangeMap, Make, New int
 }
 
